@@ -189,6 +189,9 @@ impl<T> AtomicWeak<T> {
                     expected_raw = current_raw;
                     continue;
                 }
+                // (the load above used up the announcement of the yield point; the CAS below is
+                // still the access it announced)
+                crate::verif::arm(&self.link as *const _ as usize);
             }
             match self
                 .link
